@@ -208,7 +208,8 @@ def mk_eval_cases(g, n, prefix, funcs=0.0, acc=0.0, jnum=0.15, opaque=0.0, filte
             continue
         doc = g.filter_doc(jn, opaque) if g.r.random() < filter_heavy else g.doc(3, jn, opaque)
         steps = g.gen_path(doc, maxsteps, funcs)
-        path = gens.render_path(steps)
+        # now and then without the leading `$` (a bracket or a bare name may start a path)
+        path = gens.render_path(steps, None, dollar=g.r.random() > 0.1)
         f, a = gens.funcs_used(steps)
         cases.append(Case('%s%d' % (prefix, i), path, [doc], f, a, acc=(g.r.random() < acc), meta={'nsteps': len(steps)}))
     return cases
